@@ -790,6 +790,29 @@ def _tabulation_near_mirror_face(case):
     return 0 < math.pi / 4 - x < 1e-7
 
 
+def _near_local_two_qubit_unitary(case):
+    """F20 trigger: a two-qubit operation (or the whole 2-qubit circuit) whose KAK interaction is tiny but not zero,
+    0 < max|kak_vector| < 1e-7: cirq.kak_decomposition returns factors that do not reproduce the matrix there (interaction strength
+    inside the degeneracy-detection window), so every synthesis built on it (CZ, sqrt-iSWAP, ...) is off by O(1)."""
+    if not _near_weyl_boundary(case["circ"].get("ops", [])):  # cheap pre-filter: some parameter within 1e-6 of a special value
+        return False
+    g = dict(case["gs"])
+    circuit, qs, built = CG.build_compile_circuit(case["circ"], g)
+    mats = []
+    for op in _flat_ops(circuit):
+        if len(op.qubits) == 2 and not cirq.is_measurement(op):
+            mats.append(cirq.unitary(op, None))
+    if len(qs) == 2 and all(cirq.has_unitary(op) for op in circuit.all_operations()):
+        mats.append(cirq.unitary(circuit) if len(circuit.all_qubits()) == 2 else None)
+    for u in mats:
+        if u is None or u.shape != (4, 4):
+            continue
+        x = float(np.max(np.abs(cirq.kak_vector(u, check_preconditions=False))))
+        if 0 < x < 1e-7:
+            return True
+    return False
+
+
 def _sqrt_iswap_tight_atol_near_corner(case):
     """F18 trigger: SqrtIswapTargetGateset(atol < 1e-8) on an input within ~atol of a Weyl-chamber corner (KAK sub-decomposition
     inside _decomp_2sqrt_iswap_matrices is run with atol/10, below the numerical noise of the input)."""
@@ -799,6 +822,7 @@ def _sqrt_iswap_tight_atol_near_corner(case):
 
 KNOWN_FEATURES = {
     "F18_sqrt_iswap_tight_atol_near_weyl_corner": lambda sub, r: sub in ("compile_core", "twoq", "sqrt_iswap_required") and _sqrt_iswap_tight_atol_near_corner(r),
+    "F20_kak_decomposition_near_local_window": lambda sub, r: sub in ("compile_core", "compile_vendor", "twoq", "sqrt_iswap_required", "syc_tabulation", "bare_known_gates") and _near_local_two_qubit_unitary(r),
     "F19_tabulation_near_weyl_mirror_face": lambda sub, r: sub == "syc_tabulation" and _tabulation_near_mirror_face(r),
     "F16_route_cqc_unidirectional_edges_livelock": lambda sub, r: sub == "route" and _unidirectional(r),
 }
